@@ -14,7 +14,9 @@ pub mod c05;
 pub mod c06;
 pub mod c07;
 pub mod rules;
+pub mod c09;
 pub mod c10;
+pub mod lsp;
 pub mod c12;
 pub mod c14;
 pub mod c15;
